@@ -378,7 +378,7 @@ CLAIMS = {
         "engine": "vx+verus",
         "technique": "contract-based deductive verification: Verus contracts (*SpecImpl / requires-ensures) on the real text of src/util/lazy_bigint.rs extracted on every run",
         "text": "Every arithmetic operator impl of LazyBigint is proved, for operands of any magnitude, to return the canonical representation of the mathematical result (strongest postcondition) under the representation invariant; canonicity gives eq/hash/text coherence as a lemma.",
-        "note": "BigInt operations are axiomatised as mathematical integers; the generic From<T> impl is assumed in Verus and discharged by Kani; binom: exactness of the final division (k! divides the falling factorial) is not decided; multinom, library functions written in the xray language (gcd, factorial...) and text conversion are unreached.",
+        "note": "BigInt operations are axiomatised as mathematical integers; the generic From<T> impl is assumed in Verus and discharged by Kani; binom is the binomial coefficient by Pascal's rule (exactness of the final division proved); multinom, library functions written in the xray language (gcd, factorial...) and text conversion are unreached.",
     },
 }
 
